@@ -314,6 +314,22 @@ func applyOp(b []byte, op string) ([]byte, bool) {
 			out = append(out, long...)
 		}
 		return out, true
+	case "empty-facet": // facet i keeps its normal, loop and endfacet lines but lists no vertex
+		lines := bytes.SplitAfter(b, []byte("\n"))
+		var out []byte
+		facet, hit := -1, false
+		for _, ln := range lines {
+			t := bytes.TrimSpace(ln)
+			if bytes.HasPrefix(t, []byte("facet")) {
+				facet++
+			}
+			if facet == num(1) && bytes.HasPrefix(t, []byte("vertex")) {
+				hit = true
+				continue
+			}
+			out = append(out, ln...)
+		}
+		return out, hit
 	case "drop-line", "dup-line", "cut-line", "stray-token", "bad-number", "junk-prefix", "recode-line":
 		lines := bytes.SplitAfter(b, []byte("\n"))
 		i := num(1)
@@ -498,7 +514,18 @@ func (ep *episode) runLoad() *Result {
 				}
 			}
 			entry := j.Model
+			// "fds-left:<k>": the process has only k free file descriptors when the load starts
+			release := func() {}
+			for _, op := range j.Ops {
+				if strings.HasPrefix(op, "fds-left:") {
+					k, _ := strconv.Atoi(strings.TrimPrefix(op, "fds-left:"))
+					release = exhaustDescriptors(k)
+					applied++
+					ep.faults["fds-left"]++
+				}
+			}
 			o := guardedLoad(entry, p)
+			release()
 			if !strings.HasPrefix(p, "/dev/") {
 				os.RemoveAll(p)
 			}
@@ -542,4 +569,32 @@ func trimStack(s string) string {
 		return s
 	}
 	return s[i:]
+}
+
+// exhaustDescriptors lowers the descriptor limit, opens /dev/null until open fails and
+// gives k descriptors back; the returned function undoes all of it.
+func exhaustDescriptors(k int) func() {
+	var lim syscall.Rlimit
+	syscall.Getrlimit(syscall.RLIMIT_NOFILE, &lim)
+	low := lim
+	low.Cur = 96
+	syscall.Setrlimit(syscall.RLIMIT_NOFILE, &low)
+	var hogs []*os.File
+	for {
+		f, err := os.Open("/dev/null")
+		if err != nil {
+			break
+		}
+		hogs = append(hogs, f)
+	}
+	for i := 0; i < k && len(hogs) > 0; i++ {
+		hogs[len(hogs)-1].Close()
+		hogs = hogs[:len(hogs)-1]
+	}
+	return func() {
+		for _, f := range hogs {
+			f.Close()
+		}
+		syscall.Setrlimit(syscall.RLIMIT_NOFILE, &lim)
+	}
 }
